@@ -1242,6 +1242,104 @@ def C11(tier, seed, st):
     return res
 
 
+# ---------------------------------------------------------------- C12
+def C12(tier, seed, st):
+    res = Result("C12")
+    rng = random.Random(seed)
+    q = tier == "quick"
+    ok, log = common.build_race()
+    if not ok:
+        res.notes.append("race-detector build failed: " + log[-1500:])
+        res.corr_break(stream="race", case="-", why="implrun does not build with -race")
+        return res
+    def sent(lang, n=12, valid=True):
+        idx = gens.indices_of_entropy(rng.randbytes(n // 3 * 4))
+        if not valid:
+            idx[-1] ^= 1
+        return hx(gens.sentence(lang, idx))
+    progs = []
+    # every goroutine validates under the SAME cold language (concurrent first use), then others
+    for lang in (rng.sample(LANGS, 4) if q else LANGS):
+        g = rng.choice((2, 4, 8, 16))
+        progs.append([["C %s %s" % (lang, sent(lang)), "C %s %s" % (lang, sent(lang, 15, False))] for _ in range(g)])
+    # ordered pairs of first-used languages racing each other
+    pairs = [(a, b) for a in LANGS for b in LANGS if a != b]
+    for a, b in (rng.sample(pairs, 6) if q else pairs):
+        progs.append([["C %s %s" % (a, sent(a)), "C %s %s" % (b, sent(b))], ["C %s %s" % (b, sent(b)), "C %s %s" % (a, sent(a))],
+                      ["E %s %s" % (a, hx(rng.randbytes(16))), "C %s %s" % (a, sent(a))], ["L %s" % b, "C %s %s" % (b, sent(b, 24))]])
+    # mixes of all six entry points over all languages, incl. NewMnemonic on the default source
+    for _ in range(26 if q else 450):
+        g = rng.choice((2, 3, 5, 8, 12))
+        prog = []
+        for _ in range(g):
+            ops = []
+            for _ in range(rng.randrange(1, 5)):
+                lang = rng.choice(LANGS + UNSUPPORTED[:2])
+                k = rng.random()
+                if k < 0.45:
+                    base = rng.choice(LANGS)
+                    ops.append("C %s %s" % (lang if rng.random() < 0.3 else base, sent(base, rng.choice(WORD_COUNTS), rng.random() < 0.8)))
+                elif k < 0.6:
+                    ops.append("E %s %s" % (lang, hx(rng.randbytes(rng.choice(ENT_LENS)))))
+                elif k < 0.8:
+                    ops.append("N %d %s -" % (rng.choice(WORD_COUNTS + [13]), lang))
+                elif k < 0.9:
+                    ops.append("S %s %s" % (hx(b"abandon"), hx(rng.choice([b"", b"x"]))))
+                else:
+                    ops.append("L %s" % lang)
+            prog.append(ops)
+        progs.append(prog)
+    # concurrent NewMnemonic only (the default source is shared by all goroutines)
+    for _ in range(4 if q else 40):
+        progs.append([["N %d %s -" % (rng.choice(WORD_COUNTS), rng.choice(LANGS)) for _ in range(6)] for _ in range(rng.choice((4, 8, 16)))])
+    # what every op returns when run alone, in a fresh process
+    uniq = sorted(set(op for p_ in progs for g in p_ for op in g if op[0] != "N"))
+    alone = dict(zip(uniq, [r.split(" BUFFERS-CHANGED")[0] for r in common.run_impl(["Q " + op for op in uniq])]))
+    outs = common.run_race(progs)
+    for prog, (rows, race, rc, err) in zip(progs, outs):
+        res.evaluations += 1
+        res.count("race/goroutines=%d" % len(prog))
+        res.nontrivial.add(json_key(prog))
+        case = "race " + " || ".join("|".join(g) for g in prog)
+        if race:
+            res.violation(stream="race", case=case[:6000], impl=race, model="", spec="no data race", why="the race detector reported a data race")
+            continue
+        if rc == -9:
+            rows2, race2, rc2, err2 = common.run_race([prog], timeout=600)[0]
+            if rc2 == -9:
+                res.notes.append("a race run timed out twice (inconclusive, not counted as a violation)")
+                continue
+            rows, race, rc, err = rows2, race2, rc2, err2
+        if rc != 0 or len(rows) != len(prog):
+            res.violation(stream="race", case=case[:6000], impl="rc=%s %s" % (rc, err[-800:]), model="", spec="all goroutines complete", why="the concurrent run did not complete normally (panic or crash)")
+            continue
+        bad = None
+        for g, row in zip(prog, rows):
+            for op, r in zip(g, row):
+                if op[0] == "N":
+                    n = int(op.split()[1])
+                    want = "ok words=%d" % n if n in WORD_COUNTS else "err wordlen"
+                    if r != want:
+                        bad = (op, r, want)
+                elif r != alone[op]:
+                    bad = (op, r, alone[op])
+            if len(row) != len(g):
+                bad = (g[0], "goroutine returned %d results for %d calls" % (len(row), len(g)), "")
+        if bad:
+            res.violation(stream="race", case=case[:6000], failing_op=bad[0], impl=bad[1], model="", spec=bad[2],
+                          why="a call returned something else than when run alone")
+    res.sample({"program": [g for g in progs[0][:2]], "goroutines": len(progs[0])})
+    res.streams["race-processes"] = len(progs)
+    res.streams["alone"] = len(uniq)
+    res.notes.append("implrun built with go build -race -tags verif; every program runs in a fresh process; goroutines are released together by a barrier")
+    return res
+
+
+def json_key(x):
+    import json as _j
+    return hashlib.sha256(_j.dumps(x).encode()).hexdigest()
+
+
 # ---------------------------------------------------------------- C07
 def C07(tier, seed, st):
     res = Result("C07")
@@ -1329,4 +1427,4 @@ def C07(tier, seed, st):
     return res
 
 
-CHECKS = {"C04": C04, "C11": C11, "C07": C07, "C08": C08, "C13": C13, "C14": C14, "C01": C01, "C02": C02, "C03": C03, "C05": C05, "C06": C06, "C09": C09, "C10": C10, "C15": C15, "C16": C16}
+CHECKS = {"C12": C12, "C04": C04, "C11": C11, "C07": C07, "C08": C08, "C13": C13, "C14": C14, "C01": C01, "C02": C02, "C03": C03, "C05": C05, "C06": C06, "C09": C09, "C10": C10, "C15": C15, "C16": C16}
